@@ -56,7 +56,7 @@ def f32(x):
     return struct.unpack("f", struct.pack("f", x))[0]
 
 
-def run_case(rnd, fmtname, fb, blocklimit, nseg, with_vector):
+def run_case(rnd, fmtname, fb, blocklimit, nseg, with_vector, memory=False):
     from whoosh import fields, formats, analysis
     from whoosh.codec.whoosh3 import W3Codec
     from whoosh.filedb.filestore import RamStorage
@@ -64,23 +64,38 @@ def run_case(rnd, fmtname, fb, blocklimit, nseg, with_vector):
     fmt = getattr(formats, fmtname)(field_boost=fb)
     vec = getattr(formats, fmtname)(field_boost=fb) if with_vector else None
     ft = fields.FieldType(format=fmt, analyzer=ana, vector=vec, scorable=True)
-    ix = RamStorage().create_index(fields.Schema(k=fields.ID(stored=True), f=ft))
+    sch = fields.Schema(k=fields.ID(stored=True), f=ft)
     docs = [gen_doc(rnd) for _ in range(rnd.randint(1, 6))]
     cuts = sorted(rnd.sample(range(1, len(docs)), min(nseg - 1, len(docs) - 1))) if len(docs) > 1 else []
-    w = ix.writer(codec=W3Codec(blocklimit=blocklimit))
-    for i, d in enumerate(docs):
-        if i in cuts:
-            w.commit(merge=False)
-            w = ix.writer(codec=W3Codec(blocklimit=blocklimit))
-        w.add_document(k=u"%d" % i, f=d)
-    w.commit(merge=False)
-    corpus = {"format": fmtname, "field_boost": fb, "blocklimit": blocklimit, "docs": docs, "cuts": cuts, "vector": with_vector}
-    tag = fmtname
+    if memory:
+        # the in-memory codec keeps ONE growing segment that successive writers add to
+        from whoosh.codec import memory as memcodec
+        codec = memcodec.MemoryCodec()
+        i = 0
+        for chunk_end in cuts + [len(docs)]:
+            with codec.writer(sch) as mw:
+                while i < chunk_end:
+                    mw.add_document(k=u"%d" % i, f=docs[i])
+                    i += 1
+        get_reader = lambda: codec.reader(sch)
+    else:
+        ix = RamStorage().create_index(sch)
+        w = ix.writer(codec=W3Codec(blocklimit=blocklimit))
+        for i, d in enumerate(docs):
+            if i in cuts:
+                w.commit(merge=False)
+                w = ix.writer(codec=W3Codec(blocklimit=blocklimit))
+            w.add_document(k=u"%d" % i, f=d)
+        w.commit(merge=False)
+        get_reader = ix.reader
+    corpus = {"format": fmtname, "field_boost": fb, "blocklimit": blocklimit, "docs": docs, "cuts": cuts, "vector": with_vector,
+              "memory": memory}
+    tag = fmtname + ("-memcodec" if memory else "")
     exp = {}          # term -> {doc: [(pos,start,end,boost)...]}
     for i, d in enumerate(docs):
         for wd, pos, st, en, b in analyse(d):
             exp.setdefault(wd, {}).setdefault(i, []).append((pos, st, en, b))
-    with ix.reader() as r:
+    with get_reader() as r:
         k2d = dict((r.stored_fields(dn)["k"], dn) for dn in r.all_doc_ids())
         lex = sorted(t.decode("utf8") for t in r.lexicon("f"))
         if lex != sorted(exp):
@@ -180,7 +195,7 @@ def main():
         r2 = random.Random(0)
         r2.randint = lambda a, b: len(c["docs"]) if (a, b) == (1, 6) else random.Random(0).randint(a, b)
         r2.sample = lambda pop, k: list(c["cuts"])
-        run_case(r2, c["format"], c["field_boost"], c["blocklimit"], len(c["cuts"]) + 1, c["vector"])
+        run_case(r2, c["format"], c["field_boost"], c["blocklimit"], len(c["cuts"]) + 1, c["vector"], memory=c.get("memory", False))
         for f in fails:
             print("FAIL", f["case"], "|", f["detail"])
         sys.exit(1 if fails else 0)
@@ -196,7 +211,7 @@ def main():
             nseg = rnd.choice([1, 2])
             counts["cases"] += 1
             try:
-                run_case(rnd, fmtname, fb, bl, nseg, with_vector=rnd.random() < 0.5)
+                run_case(rnd, fmtname, fb, bl, nseg, with_vector=rnd.random() < 0.5, memory=(it % 4 == 3))
             except Exception as e:
                 fail("C10-%s-exception" % fmtname, "%s: %s | %s" % (type(e).__name__, e, traceback.format_exc()[-400:]))
     import shutil
